@@ -54,7 +54,12 @@ def scan_trusted(gen_text):
     for l in gen_text.split('\n'):
         m = re.search(r'//\s*ASSUMED\[([^\]]+)\]\s*:?\s*(.*)$', l)
         if m:
-            tags.setdefault(m.group(1), m.group(2).strip())
+            txt = m.group(2).strip()
+            cur = tags.get(m.group(1))
+            if cur is None:
+                tags[m.group(1)] = txt
+            elif txt and txt not in cur:
+                tags[m.group(1)] = cur + ' || ' + txt      # one tag may label several assumed statements: keep them all
         code = l.split('//')[0]
         for c in CHEATS:
             if c in code:
@@ -389,7 +394,13 @@ def run_property(pid, tier, keep=False, seed=0):
         vac = []
         reach = []
         for r in results:
-            trusted.update({k: v for k, v in r['trusted'].items()})
+            for k, v in r['trusted'].items():
+                if k not in trusted:
+                    trusted[k] = v
+                else:
+                    for part in v.split(' || '):
+                        if part and part not in trusted[k]:
+                            trusted[k] += ' || ' + part
             for k, v in r['cheats'].items():
                 cheats[k] = cheats.get(k, 0) + v
             rewrites += [dict(x, unit=r['unit']) for x in r['rewrites']]
